@@ -14,6 +14,8 @@ import (
 	"os/exec"
 	"path/filepath"
 	"regexp"
+	"runtime"
+	"runtime/pprof"
 	"sort"
 	"strings"
 	"sync"
@@ -31,9 +33,12 @@ type WorkerResult struct {
 	WallS      float64
 	Sample     []string // one traced execution
 	SampleCh   []int
+	PackSize   int
+	PackDone   int
 }
 
 type WViolation struct {
+	Scenario string
 	Property string
 	Kind     string
 	Msg      string
@@ -63,25 +68,70 @@ func explorerFor(sc *Scenario, bound int) *vs.Explorer {
 	}
 }
 
-// classify maps explorer-level failures to properties.
-func classify(v vs.Violation) (string, string) {
+// classify maps explorer-level failures to properties.  A deadlock in which a
+// caller is stuck is both "Consume never returns" (C06) and a deadlock (C11).
+func classify(v vs.Violation) ([]string, string) {
 	switch v.Kind {
 	case "deadlock":
-		if strings.Contains(v.Msg, "[caller-") && !strings.Contains(v.Msg, "[shutdown]") {
-			return "C06", "deadlock: " + v.Msg
+		if strings.Contains(v.Msg, "[caller-") {
+			return []string{"C06", "C11"}, "deadlock: " + v.Msg
 		}
-		return "C11", "deadlock: " + v.Msg
+		return []string{"C11"}, "deadlock: " + v.Msg
 	case "panic":
-		return "C11", "panic in processor code: " + v.Msg
+		return []string{"C11"}, "panic in processor code: " + v.Msg
 	case "invariant":
-		return splitProp(v.Msg, "C11")
+		p, m := splitProp(v.Msg, "C11")
+		return []string{p}, m
 	default:
-		return splitProp(v.Msg, "C05")
+		p, m := splitProp(v.Msg, "C05")
+		return []string{p}, m
 	}
 }
 
 func runWorker(sc *Scenario, bound int, budget time.Duration, noprune bool) *WorkerResult {
+	if len(sc.Pack) == 0 {
+		return runOne(sc, bound, time.Now(), budget, noprune)
+	}
 	start := time.Now()
+	res := &WorkerResult{Scenario: sc.Name, Bound: bound}
+	res.Stats.BoundDone = bound
+	for i, sub := range sc.Pack {
+		r := runOne(sub, bound, start, budget, noprune)
+		st := &res.Stats
+		st.Executions += r.Stats.Executions
+		st.Complete += r.Stats.Complete
+		st.Cut += r.Stats.Cut
+		st.Steps += r.Stats.Steps
+		st.ChoicePoints += r.Stats.ChoicePoints
+		st.States += r.Stats.States
+		st.StepCaps += r.Stats.StepCaps
+		st.TimerFireRuns += r.Stats.TimerFireRuns
+		if r.Stats.MaxPoints > st.MaxPoints {
+			st.MaxPoints = r.Stats.MaxPoints
+		}
+		res.Outcomes += r.Outcomes
+		res.Violations = append(res.Violations, r.Violations...)
+		if i == 0 || i == len(sc.Pack)/2 {
+			res.Sample = append(res.Sample, "== "+sub.Name)
+			res.Sample = append(res.Sample, r.Sample...)
+		}
+		if r.Stats.BudgetHit {
+			st.BudgetHit = true
+			st.BoundDone = r.Stats.BoundDone
+			res.PackDone = i
+			break
+		}
+		res.PackDone = i + 1
+		if len(res.Violations) > 40 {
+			break
+		}
+	}
+	res.PackSize = len(sc.Pack)
+	res.WallS = time.Since(start).Seconds()
+	return res
+}
+
+func runOne(sc *Scenario, bound int, start time.Time, budget time.Duration, noprune bool) *WorkerResult {
 	res := &WorkerResult{Scenario: sc.Name, Bound: bound}
 	var last *vs.Explorer
 	seen := map[string]bool{}
@@ -94,8 +144,8 @@ func runWorker(sc *Scenario, bound int, budget time.Duration, noprune bool) *Wor
 		viols := ex.Explore()
 		last = ex
 		for _, v := range viols {
-			prop, msg := classify(v)
-			key := prop + "|" + msg
+			props, msg := classify(v)
+			key := props[0] + "|" + msg
 			if seen[key] {
 				continue
 			}
@@ -128,7 +178,9 @@ func runWorker(sc *Scenario, bound int, budget time.Duration, noprune bool) *Wor
 				}
 				trace = out.Trace
 			}
-			res.Violations = append(res.Violations, WViolation{Property: prop, Kind: v.Kind, Msg: msg, Choices: v.Choices, Trace: trace, Stable: stable})
+			for _, prop := range props {
+				res.Violations = append(res.Violations, WViolation{Scenario: sc.Name, Property: prop, Kind: v.Kind, Msg: msg, Choices: v.Choices, Trace: trace, Stable: stable})
+			}
 		}
 		if ex.Stats.BudgetHit {
 			break
@@ -138,6 +190,9 @@ func runWorker(sc *Scenario, bound int, budget time.Duration, noprune bool) *Wor
 		}
 	}
 	res.Stats = last.Stats
+	if last.Stats.BudgetHit {
+		res.Stats.BoundDone = last.Bound - 1
+	}
 	res.Outcomes = len(last.Stats.Outcomes)
 	res.Stats.Outcomes = nil
 	// sample execution: the default schedule, traced
@@ -157,9 +212,9 @@ type propSpec struct {
 
 // which scenarios serve which property (DESIGN.md appendix B)
 var propScenarios = map[string]*regexp.Regexp{
-	"C05": regexp.MustCompile(`^(D1|D2|D3|D4|D5|D6|SPLIT)`),
-	"C06": regexp.MustCompile(`^(D1|D2|D3|D6|D7)`),
-	"C09": regexp.MustCompile(`^(D2|D4|D6|D9t|T9)`),
+	"C05": regexp.MustCompile(`^(D1|D2|D3|D4|D5|D6|SPLIT|SEQ)`),
+	"C06": regexp.MustCompile(`^(D1|D2|D3|D6|D7|SEQ)`),
+	"C09": regexp.MustCompile(`^(D2|D4|D6|T9|SPLIT|SEQ)`),
 	"C10": regexp.MustCompile(`^(D8)`),
 	"C11": regexp.MustCompile(`^(D1|D3|D5|D7|D8|K2)`),
 	"C18": regexp.MustCompile(`^(D9|D7)`),
@@ -179,17 +234,40 @@ func main() {
 	noprune := flag.Bool("noprune", false, "disable fingerprint pruning")
 	jobs := flag.Int("j", 16, "parallel workers")
 	known := flag.String("known", "", "known findings file")
+	cpuprof := flag.String("cpuprofile", "", "write cpu profile (worker)")
 	flag.Parse()
+	if os.Getenv("BPX_MEMSTATS") == "2" {
+		go func() {
+			for {
+				time.Sleep(200 * time.Millisecond)
+				var ms runtime.MemStats
+				runtime.ReadMemStats(&ms)
+				if ms.HeapInuse > 1<<30 {
+					f, _ := os.Create("/tmp/heap.prof")
+					pprof.WriteHeapProfile(f)
+					f.Close()
+					fmt.Fprintln(os.Stderr, "heap profile written")
+					os.Exit(3)
+				}
+			}
+		}()
+	}
+	if *cpuprof != "" {
+		f, _ := os.Create(*cpuprof)
+		pprof.StartCPUProfile(f)
+		defer pprof.StopCPUProfile()
+	}
 
 	scs := allScenarios(*tier)
 	byName := map[string]*Scenario{}
 	for _, s := range scs {
 		byName[s.Name] = s
 	}
-	// scenarios only present in the other tier must stay replayable
-	for _, s := range allScenarios("thorough") {
-		if byName[s.Name] == nil {
-			byName[s.Name] = s
+	for _, s := range scs {
+		for _, sub := range s.Pack {
+			if byName[sub.Name] == nil {
+				byName[sub.Name] = sub
+			}
 		}
 	}
 	if *list {
@@ -199,7 +277,7 @@ func main() {
 		return
 	}
 	if *replay != "" {
-		os.Exit(doReplay(*replay, byName))
+		os.Exit(doReplay(*replay))
 	}
 	if *worker {
 		sc := byName[*scName]
@@ -210,17 +288,38 @@ func main() {
 		r := runWorker(sc, *bound, *budget, *noprune)
 		b, _ := json.Marshal(r)
 		fmt.Println("RESULT " + string(b))
+		if os.Getenv("BPX_MEMSTATS") != "" {
+			var ms runtime.MemStats
+			runtime.ReadMemStats(&ms)
+			fmt.Fprintf(os.Stderr, "MEM heapInuse=%dMB heapSys=%dMB stackInuse=%dMB sys=%dMB goroutines=%d numGC=%d\n", ms.HeapInuse>>20, ms.HeapSys>>20, ms.StackInuse>>20, ms.Sys>>20, runtime.NumGoroutine(), ms.NumGC)
+			f, _ := os.Create("/tmp/heap.prof")
+			pprof.WriteHeapProfile(f)
+			f.Close()
+		}
+		pprof.StopCPUProfile()
 		return
 	}
 	os.Exit(parent(*prop, *tier, *scName, *bound, *budget, *evidence, *replayDir, *jobs, *known, scs))
 }
 
 func defaultBound(tier string, sc *Scenario) int {
-	if sc.Bound > 0 {
-		return sc.Bound
+	if sc.ZeroBound {
+		return 0
 	}
 	if tier == "thorough" {
+		if sc.TB > 0 {
+			return sc.TB
+		}
+		if sc.Bound > 0 {
+			return sc.Bound
+		}
 		return 3
+	}
+	if sc.QB > 0 {
+		return sc.QB
+	}
+	if sc.Bound > 0 {
+		return sc.Bound
 	}
 	return 2
 }
@@ -229,13 +328,14 @@ type Artefact struct {
 	Engine   string   `json:"engine"`
 	Property string   `json:"property"`
 	Scenario string   `json:"scenario"`
+	Tier     string   `json:"tier"`
 	Kind     string   `json:"kind"`
 	Message  string   `json:"message"`
 	Choices  []int    `json:"choices"`
 	Trace    []string `json:"trace"`
 }
 
-func doReplay(path string, byName map[string]*Scenario) int {
+func doReplay(path string) int {
 	b, err := os.ReadFile(path)
 	if err != nil {
 		fmt.Fprintln(os.Stderr, "HARNESS-ERROR:", err)
@@ -246,7 +346,20 @@ func doReplay(path string, byName map[string]*Scenario) int {
 		fmt.Fprintln(os.Stderr, "HARNESS-ERROR:", err)
 		return 2
 	}
-	sc := byName[a.Scenario]
+	if a.Tier == "" {
+		a.Tier = "quick"
+	}
+	var sc *Scenario
+	for _, s := range allScenarios(a.Tier) {
+		if s.Name == a.Scenario {
+			sc = s
+		}
+		for _, sub := range s.Pack {
+			if sub.Name == a.Scenario {
+				sc = sub
+			}
+		}
+	}
 	if sc == nil {
 		fmt.Fprintf(os.Stderr, "HARNESS-ERROR: unknown scenario %q\n", a.Scenario)
 		return 2
@@ -350,7 +463,7 @@ func parent(prop, tier, filter string, boundOverride int, budget time.Duration, 
 				b = boundOverride
 			}
 			cmd := exec.Command(self, "-worker", "-tier", tier, "-scenario", sc.Name, "-bound", fmt.Sprint(b), "-budget", budget.String())
-			cmd.Env = append(os.Environ(), "GOMAXPROCS=2", "GOGC=200")
+			cmd.Env = append(os.Environ(), "GOMAXPROCS=1", "GOGC=400")
 			cmd.Stderr = os.Stderr
 			outp, err := cmd.Output()
 			var r *WorkerResult
@@ -405,15 +518,14 @@ func parent(prop, tier, filter string, boundOverride int, budget time.Duration, 
 		if r.Stats.BudgetHit {
 			exhaustive = false
 		}
-		if r.Stats.BoundDone < boundDone {
+		if r.Stats.BoundDone < boundDone && !(r.PackSize > 0 && r.Bound == 0) {
+			// sequential layers (one caller, bound 0 by construction) do not count
 			boundDone = r.Stats.BoundDone
-		}
-		if r.Stats.BudgetHit && r.Bound-1 < boundDone {
-			boundDone = r.Bound - 1
 		}
 		perScenario = append(perScenario, map[string]any{"scenario": r.Scenario, "bound": r.Bound, "executions": r.Stats.Executions,
 			"complete": r.Stats.Complete, "pruned": r.Stats.Cut, "states": r.Stats.States, "steps": r.Stats.Steps, "distinct_outcomes": r.Outcomes,
-			"budget_hit": r.Stats.BudgetHit, "wall_s": r.WallS, "runs_with_timer_fire": r.Stats.TimerFireRuns})
+			"budget_hit": r.Stats.BudgetHit, "wall_s": r.WallS, "runs_with_timer_fire": r.Stats.TimerFireRuns,
+			"pack_members": r.PackSize, "pack_members_done": r.PackDone})
 		if len(samples) < 3 && len(r.Sample) > 0 {
 			samples = append(samples, map[string]any{"scenario": r.Scenario, "default_schedule_trace": r.Sample})
 		}
@@ -426,15 +538,18 @@ func parent(prop, tier, filter string, boundOverride int, budget time.Duration, 
 				notes[v.Property]++
 				continue
 			}
-			h := sha256.Sum256([]byte(r.Scenario + "|" + v.Msg))
+			if v.Scenario == "" {
+				v.Scenario = r.Scenario
+			}
+			h := sha256.Sum256([]byte(v.Scenario + "|" + v.Msg))
 			name := fmt.Sprintf("%s-%s.json", prop, hex.EncodeToString(h[:6]))
 			path := filepath.Join(replayDir, name)
-			a := Artefact{Engine: "bpx", Property: prop, Scenario: r.Scenario, Kind: v.Kind, Message: v.Msg, Choices: v.Choices, Trace: v.Trace}
+			a := Artefact{Engine: "bpx", Property: prop, Tier: tier, Scenario: v.Scenario, Kind: v.Kind, Message: v.Msg, Choices: v.Choices, Trace: v.Trace}
 			b, _ := json.MarshalIndent(a, "", " ")
 			os.WriteFile(path, b, 0o644)
 			isKnown := false
 			for _, k := range known {
-				if k.Property == prop && k.Status != "fixed" && k.Key != "" && strings.Contains(r.Scenario+"|"+v.Msg, k.Key) {
+				if k.Property == prop && k.Status != "fixed" && k.Key != "" && strings.Contains(v.Scenario+"|"+v.Msg, k.Key) {
 					isKnown = true
 					knownLines = append(knownLines, fmt.Sprintf("KNOWN-FINDING: property=%s %s", prop, k.What))
 				}
@@ -446,7 +561,7 @@ func parent(prop, tier, filter string, boundOverride int, budget time.Duration, 
 			if len(violLines) < 10 {
 				abs, _ := filepath.Abs(path)
 				violLines = append(violLines, fmt.Sprintf("VIOLATION property=%s replay=%s", prop, abs))
-				fmt.Printf("  [%s] %s: %s\n", r.Scenario, v.Kind, firstLine(v.Msg))
+				fmt.Printf("  [%s] %s: %s\n", v.Scenario, v.Kind, firstLine(v.Msg))
 			}
 		}
 	}
